@@ -156,6 +156,15 @@ func EqualCommittee(n int) Committee {
 	return c
 }
 
+// LongIDCommittee: equal weights, ids that share a long common prefix (as addresses of one deployment do).
+func LongIDCommittee(n int) Committee {
+	c := make(Committee, n)
+	for i := range c {
+		c[i] = Member{ID: []byte(fmt.Sprintf("validator-%d", i)), Weight: 1}
+	}
+	return c
+}
+
 func WeightedCommittee(w ...uint64) Committee {
 	c := make(Committee, len(w))
 	for i := range c {
